@@ -221,9 +221,13 @@ def scenario_check(rep, rng, pid, n, profile=None, keys=runner.ALL_KEYS, transfo
                 if kf:
                     rep.known_finding(kf)
                 else:
+                    decl0 = json.dumps(scenario_json({"data": sc["data"], "attach": sc["attach"]}), sort_keys=True)
                     def still_o(cands):
+                        # oracles read the generator's description of the declaration (sc["meta"]): only candidates that keep the
+                        # declaration (they shrink argument vectors, operations, configuration) are meaningful for them
+                        keep = [json.dumps(scenario_json({"data": c["data"], "attach": c["attach"]}), sort_keys=True) == decl0 for c in cands]
                         gg = runner.run_impl(cands)
-                        return [(not a.get("fatal")) and (not a.get("hang")) and bool(oracle(c, a)) for c, a in zip(cands, gg)]
+                        return [k and (not a.get("fatal")) and (not a.get("hang")) and bool(oracle(c, a)) for k, c, a in zip(keep, cands, gg)]
                     sc = shrink(sc, still_o, rounds=40, width=200)
                     g = runner.run_impl([sc])[0]
                     msg = oracle(sc, g) or msg
